@@ -18,13 +18,13 @@ vars == <<l>>
 Unordered(cfg) == cfg.disc \in {"unordered", "heap"}
 SameContent(cfg, a, b) == IF Unordered(cfg) THEN SameBag(a, b) ELSE a = b
 
-\* the Pop / Dequeue sequence of the reloaded container.  Heap elements are logged as 10 * priority + id: elements that
-\* the comparator ties may leave a heap in either order (a heap is not stable, and a loader may lay the array out as it
-\* likes), so two drains of a heap are the same when they hold the same elements and agree position by position up to ties
-PrioOf(cfg, x) == IF cfg.cmp \in {"prio", "maxprio"} THEN x \div 10 ELSE x
-SameDrain(cfg, a, b) == IF cfg.disc = "heap"
-                        THEN SameBag(a, b) /\ \A i \in DOMAIN a : PrioOf(cfg, a[i]) = PrioOf(cfg, b[i])
-                        ELSE a = b
+\* the Pop / Dequeue sequence of the reloaded container (heap elements are logged as 10 * priority + id):
+\* "the same subsequent Pop / Dequeue sequence" (C11) is taken literally, also among elements that tie under the comparator:
+\* the library serialises the heap array as laid out and loading a valid heap array leaves it as it is, so the reloaded
+\* container drains exactly like the original.  (An earlier version compared drains of heaps up to ties, after a rewrite whose
+\* loader SORTED the array had raised this alarm; that rewrite changes the order in which tied elements leave a reloaded queue,
+\* which C11 rules out, and the relaxation made the check miss seed C11-2.  Restored.)
+SameDrain(cfg, a, b) == a = b
 
 \* ---- C11 ----------------------------------------------------------------------------------------
 C11(e) ==
